@@ -42,15 +42,16 @@ CLAIMED = {
     'C07': c('other', 'Panic set of new, accessors, encoder output by bit provenance, and composition of the encoder output with the extracted scanner '
              'transition function from every reachable typestate.',
              'C07', 'Relies on the C08 fixpoint for the reachable typestates.', SA + 'abstract interpretation + composition of extracted automaton rows'),
-    'C08': c('model_checking', 'Exhaustive product of the extracted per-channel transition function with the reference automaton O2 over the abstract '
-             '(value-independent) state space; induction over history length.',
-             'C08', 'Channel routing is C15; messages satisfy the ShortMessage contract.', T_AUTO),
+    'C08': c('model_checking', 'Exhaustive product of the transition function extracted from the public feed / reset (interpreted for each of the 16 '
+             'concrete channels) with the reference automaton O2 over the abstract (value-independent) state space; induction over history length.',
+             'C08', 'Interleaving with other channels reduces to this by C15; messages satisfy the ShortMessage contract.', T_AUTO),
     'C09': c('other', 'Constructors, accessors, the 16 encoder cases for an abstract factory against the MIDI 1.0 table, array conversion, struct invariant at every construction site.',
              'C09', 'Factory byte placement is C06.', T_INTERP),
     'C10': c('other', 'Composition of the encoder table with the extracted (N)RPN scanner transition function from every reachable typestate, running forms by typestate closure.',
              'C10', 'Relies on the C11 fixpoint and the C09 encoder table.', SA + 'abstract interpretation + composition of extracted automaton rows'),
-    'C11': c('model_checking', 'Exhaustive product of the extracted per-channel (N)RPN transition function with the reference automaton O3.',
-             'C11', 'Channel routing is C15.', T_AUTO),
+    'C11': c('model_checking', 'Exhaustive product of the (N)RPN transition function extracted from the public feed / reset (each of the 16 concrete channels) '
+             'with the reference automaton O3.',
+             'C11', 'Interleaving with other channels reduces to this by C15.', T_AUTO),
     'C12': c('other', 'Product with O4 on all feed cells plus composition of every documented unit form on the extracted function from every reachable typestate.',
              'C12', 'The clock is an uninterpreted token; real-clock behaviour is not decided.', T_AUTO + '; unit forms by composition of rows'),
     'C13': c('other', 'Poll columns of the product (split on the recorded predicate elapsed(arrival) < timeout), identity of the store on non-firing polls, '
@@ -58,14 +59,16 @@ CLAIMED = {
              'C13', 'Instant/Duration semantics trusted; real-clock behaviour not decided.', T_AUTO + ' + clock-token taint analysis'),
     'C14': c('other', 'Origin-token accounting (fixpoint over the extracted rows) checked row by row against provenance / completeness / linearity / no-loss / shape clauses.',
              'C14', 'On top of the O4 product.', SA + 'origin-token dataflow over the extracted automaton + product with the reference automaton'),
-    'C15': c('proof', 'Ownership / non-interference proof: storage-shape audit, one borrowed element whose index term is the channel by bit provenance, '
-             'nothing for system messages, result passed through, reported channel on every row, identical start.',
-             'C15', 'Rust aliasing rules; no unsafe code in the crate (checked).', SA + 'ownership / non-interference: storage-shape audit + abstract interpretation of the outer methods with the element method opaque'),
+    'C15': c('proof', 'Ownership / non-interference proof: storage-shape audit; the public feed / poll interpreted for each concrete channel k from every '
+             'reachable typestate with the other 15 elements as unconstrained tops and an explicit write log: no write to or read of another element, '
+             'no write to a shared field (per-channel bits of a shared integer: the other bits unchanged by bit provenance); system messages are the '
+             'identity and report nothing; reported channel on every row; identical start.',
+             'C15', 'Rust aliasing rules; no unsafe code in the crate (checked).', SA + 'ownership / non-interference: storage-shape audit + abstract interpretation of the public scanner methods per channel with a write log (effect analysis)'),
     'C16': c('proof', 'Identity rows of the three extracted automata (structural identity of the abstract store), predicate true-sets over 0..127, constant '
              'table, sibling cross-check dispatch set = predicate true-set.',
              'C16', 'Messages satisfy the ShortMessage contract.', T_AUTO + '; predicate outcome summaries; sibling cross-check'),
-    'C17': c('proof', 'Reset rows lead to initial pairs; outer reset interpreted from an unconstrained scanner (loop unrolled) and compared field by field; '
-             'new()/default() structurally equal; plain-data and derive audits.',
+    'C17': c('proof', 'Reset rows of all 16 explorations lead to initial pairs (timeout kept); the public reset interpreted with each element in turn arbitrary '
+             '(loop unrolled) and every element compared with a new one; new()/default() structurally equal; plain-data and derive audits.',
              'C17', 'Duration::default() is zero (trusted).', SA + 'abstract interpretation (structural store comparison) + automaton reset rows + plain-data audit'),
     'C18': c('other', 'Allocation: effect analysis (proof) - no allocator in the no_std build, no heap type and no allocating callee in the std build. Panics: every '
              'panic-capable terminator enumerated and discharged as documented or dead under the validity assumptions / on reachable typestates.',
